@@ -248,7 +248,8 @@ func ruleSingleConnect() check.Rule {
 }
 
 // createdFlagSound: in the closure, `return ..., true` occurs only inside the branch that
-// assigns the subject variable, and `return ..., false` elsewhere.
+// assigns the subject variable, and `return ..., false` elsewhere; the installing branch is the side of the test
+// on which a connection variable is nil.
 func createdFlagSound(info *types.Info, lit *ast.FuncLit) bool {
 	okTrue, okFalse, n := true, true, 0
 	ast.Inspect(lit.Body, func(x ast.Node) bool {
@@ -288,7 +289,59 @@ func createdFlagSound(info *types.Info, lit *ast.FuncLit) bool {
 		}
 		return true
 	})
-	return n >= 2 && okTrue && okFalse
+	// the installing assignments are on the side of a test that says a connection variable is nil
+	okNil := true
+	ast.Inspect(lit.Body, func(y ast.Node) bool {
+		as, ok := y.(*ast.AssignStmt)
+		if !ok || as.Tok != token.ASSIGN {
+			return true
+		}
+		nilSide := func(cond ast.Expr, polarity bool) bool {
+			// (a == nil || b == nil) true, or (a != nil && b != nil) false: some connection variable is nil
+			var some func(e ast.Expr, pol bool) bool
+			some = func(e ast.Expr, pol bool) bool {
+				e = ast.Unparen(e)
+				switch x := e.(type) {
+				case *ast.UnaryExpr:
+					if x.Op == token.NOT {
+						return some(x.X, !pol)
+					}
+				case *ast.BinaryExpr:
+					switch x.Op {
+					case token.LOR:
+						if pol {
+							return some(x.X, true) && some(x.Y, true) // every disjunct is a nil test: one of them holds
+						}
+						return false
+					case token.LAND:
+						if !pol {
+							return some(x.X, false) && some(x.Y, false)
+						}
+						return some(x.X, true) || some(x.Y, true)
+					case token.EQL, token.NEQ:
+						isNil := func(z ast.Expr) bool {
+							id, ok := ast.Unparen(z).(*ast.Ident)
+							if !ok {
+								return false
+							}
+							_, n := info.Uses[id].(*types.Nil)
+							return n
+						}
+						if isNil(x.X) || isNil(x.Y) {
+							return (x.Op == token.EQL) == pol
+						}
+					}
+				}
+				return false
+			}
+			return some(cond, polarity)
+		}
+		if !guardedByEdge(lit.Body, as, nilSide) {
+			okNil = false
+		}
+		return true
+	})
+	return n >= 2 && okTrue && okFalse && okNil
 }
 
 // REFCOUNT-PAIRING
@@ -538,7 +591,34 @@ func ruleResetBeforeTerminal() check.Rule {
 					}
 					n++
 					bad := false
+					// the reset call of this slot sits on the true side of the configuration flag of the same name
+					ast.Inspect(slot.Lit.Body, func(x ast.Node) bool {
+						call, ok := x.(*ast.CallExpr)
+						if !ok {
+							return true
+						}
+						if id, isID := ast.Unparen(call.Fun).(*ast.Ident); !isID || !resetLike[objOf(info, id)] {
+							return true
+						}
+						flag := map[int]string{1: "ResetOnError", 2: "ResetOnComplete"}[idx]
+						onFlag := func(cond ast.Expr, polarity bool) bool {
+							return implies(cond, polarity, func(e ast.Expr) int {
+								if sel, ok := ast.Unparen(e).(*ast.SelectorExpr); ok && sel.Sel.Name == flag {
+									return +1
+								}
+								return 0
+							})
+						}
+						if !guardedByEdge(slot.Lit.Body, call, onFlag) {
+							bad = true
+							c.Violation(key, call.Pos(), "the connection is reset in the %s slot on a path that is not the true side of config.%s: the shared observable resets (or fails to reset) against its configuration", name, flag)
+						}
+						return true
+					})
 					for _, t := range terminals {
+						if bad {
+							break
+						}
 						if !pathsPassBefore(slot.Lit.Body, t, isDecision) {
 							bad = true
 							c.Violation(key, t.Pos(), "the %s is broadcast to the subject on a path where the reset decision (reset under the mutex / has-been-reset flag) has not been taken yet: a subscriber arriving during the broadcast joins the terminated execution, and one leaving because of it races with the flag", name)
@@ -630,6 +710,50 @@ func ruleResetReleases() check.Rule {
 			} else {
 				c.Violation("ro.ShareWithConfig/reset-unsubscribes", resetLit.Pos(), "the reset closure does not unsubscribe the connection's upstream subscription on every path: the source stays subscribed after the last subscriber has left / after a reset")
 			}
+			// (1b) reset clears a connection variable only where it still holds the connection being reset
+			ast.Inspect(resetLit.Body, func(x ast.Node) bool {
+				as, ok := x.(*ast.AssignStmt)
+				if !ok || len(as.Lhs) != 1 || len(as.Rhs) != 1 {
+					return true
+				}
+				lid, ok1 := ast.Unparen(as.Lhs[0]).(*ast.Ident)
+				rid, ok2 := ast.Unparen(as.Rhs[0]).(*ast.Ident)
+				if !ok1 || !ok2 {
+					return true
+				}
+				wv, isVar := objOf(info, lid).(*types.Var)
+				if _, isNil := info.Uses[rid].(*types.Nil); !isVar || !locals[wv] || !isNil {
+					return true
+				}
+				same := func(cond ast.Expr, polarity bool) bool {
+					return implies(cond, polarity, func(e ast.Expr) int {
+						be, ok := ast.Unparen(e).(*ast.BinaryExpr)
+						if !ok || (be.Op != token.EQL && be.Op != token.NEQ) {
+							return 0
+						}
+						a, okA := ast.Unparen(be.X).(*ast.Ident)
+						b, okB := ast.Unparen(be.Y).(*ast.Ident)
+						if !okA || !okB {
+							return 0
+						}
+						oa, ob := objOf(info, a), objOf(info, b)
+						if (oa == types.Object(wv) && params[ob]) || (ob == types.Object(wv) && params[oa]) {
+							if be.Op == token.EQL {
+								return +1
+							}
+							return -1
+						}
+						return 0
+					})
+				}
+				key := "ro.ShareWithConfig/reset-clears-" + wv.Name()
+				if guardedByEdge(resetLit.Body, as, same) {
+					c.OK(key, as.Pos(), "%s is cleared only while it still holds the connection being reset", wv.Name())
+				} else {
+					c.Violation(key, as.Pos(), "%s is cleared although it may already hold a newer connection (the test that it still equals the connection being reset is missing or inverted): a late reset of an old execution disconnects the current one", wv.Name())
+				}
+				return true
+			})
 			// (2) the teardown calls reset inside a branch that tests refCount == 0
 			okTd := false
 			for _, tr := range sc.Teardowns {
@@ -643,18 +767,27 @@ func ruleResetReleases() check.Rule {
 					}
 					if id, ok := ast.Unparen(call.Fun).(*ast.Ident); ok && objOf(info, id) == resetVar {
 						zero := func(cond ast.Expr, polarity bool) bool {
-							found := false
-							ast.Inspect(cond, func(y ast.Node) bool {
-								if be, ok := y.(*ast.BinaryExpr); ok && be.Op == token.EQL {
+							return implies(cond, polarity, func(e ast.Expr) int {
+								if be, ok := ast.Unparen(e).(*ast.BinaryExpr); ok && (be.Op == token.EQL || be.Op == token.NEQ) {
 									if rid, ok := ast.Unparen(be.X).(*ast.Ident); ok && rid.Name == "refCount" && constIs(info, be.Y, 0) {
-										found = true
+										if be.Op == token.EQL {
+											return +1
+										}
+										return -1
 									}
 								}
-								return !found
+								return 0
 							})
-							return found && polarity
 						}
-						if guardedByEdge(tr.Val.Lit.Body, call, zero) {
+						onCfg := func(cond ast.Expr, polarity bool) bool {
+							return implies(cond, polarity, func(e ast.Expr) int {
+								if sel, ok := ast.Unparen(e).(*ast.SelectorExpr); ok && sel.Sel.Name == "ResetOnRefCountZero" {
+									return +1
+								}
+								return 0
+							})
+						}
+						if guardedByEdge(tr.Val.Lit.Body, call, zero) && guardedByEdge(tr.Val.Lit.Body, call, onCfg) {
 							okTd = true
 						}
 					}
@@ -664,7 +797,7 @@ func ruleResetReleases() check.Rule {
 			if okTd {
 				c.OK("ro.ShareWithConfig/teardown-resets-at-zero", sc.Lit.Pos(), "the teardown calls reset in the reference-count-zero branch")
 			} else {
-				c.Violation("ro.ShareWithConfig/teardown-resets-at-zero", sc.Lit.Pos(), "the teardown never calls the reset closure under the refCount == 0 test: the source is not unsubscribed when the last subscriber leaves")
+				c.Violation("ro.ShareWithConfig/teardown-resets-at-zero", sc.Lit.Pos(), "the teardown does not call the reset closure on the true side of both config.ResetOnRefCountZero and refCount == 0: the source is not unsubscribed when the last subscriber leaves (or is, against the configuration)")
 			}
 			// (3) flags cleared on a new connection: every atomic flag stored with 1 in the proxy slots is stored with 0 in the subscribe body
 			set1, set0 := map[types.Object]bool{}, map[types.Object]bool{}
